@@ -254,12 +254,9 @@ theorem isWord_of_sep {c : Char} (h : isSep c = true) : isWord c = false := by
   simp [isSep] at h
   rcases h with ((h | h) | h) | h <;> subst h <;> decide
 
-/-- facts about the regenerated templates (re-checked whenever the source constants change) -/
+/-- facts about the regenerated templates (re-checked whenever the source changes them) -/
 theorem msgSep1_ne_nil : msgSep1 ≠ [] := by decide
 theorem satHead_cons : satHead = 'b' :: satHead.drop 1 := by decide
-theorem satSep1_quote : satSep1 = '"' :: satSep1.drop 1 := by decide
-theorem satSep2_quote : satSep2 = '"' :: satSep2.drop 1 := by decide
-theorem satTail_quote : satTail = '"' :: satTail.drop 1 := by decide
 
 theorem Key.msg_ne_nil (k : Key) : k.msg ≠ [] := by
   have := msgSep1_ne_nil
@@ -269,16 +266,25 @@ theorem patOf_regular (msg : Str) (hne : msg ≠ []) (hs : ∀ c ∈ msg, isSep 
     (patOf msg).Regular := by
   unfold patOf
   split
-  · next rest =>
-    refine ⟨by simp, hs, ?_, ?_⟩
+  · -- operands anchored between operators
+    refine ⟨hne, hs, ?_, ?_⟩
     · intro c hc
-      simp [isWordO, isWord_of_sep (isSep_of_closer hc)]
-    · intro c _; rfl
-  · refine ⟨hne, hs, ?_, ?_⟩
+      simp only [isCloser, Bool.or_eq_true, beq_iff_eq] at hc
+      rcases hc with (h | h) | h <;> subst h <;> rfl
     · intro c hc
-      simp [isWordO, isWord_of_sep (isSep_of_closer hc)]
-    · intro c hc
-      simp [isWordO, isWord_of_sep (isSep_of_opener hc)]
+      simp only [isOpener, Bool.or_eq_true, beq_iff_eq] at hc
+      rcases hc with (h | h) | h <;> subst h <;> rfl
+  · split
+    · next rest =>
+      refine ⟨by simp, hs, ?_, ?_⟩
+      · intro c hc
+        simp [isWordO, isWord_of_sep (isSep_of_closer hc)]
+      · intro c _; rfl
+    · refine ⟨hne, hs, ?_, ?_⟩
+      · intro c hc
+        simp [isWordO, isWord_of_sep (isSep_of_closer hc)]
+      · intro c hc
+        simp [isWordO, isWord_of_sep (isSep_of_opener hc)]
 
 def Key.SepFree (k : Key) : Prop := ∀ c ∈ k.msg, isSep c = false
 
@@ -323,30 +329,92 @@ theorem dropPrefix?_append (a b : Str) : dropPrefix? a (a ++ b) = some b := by
   | nil => simp [dropPrefix?]
   | cons x xs ih => simp [dropPrefix?, ih]
 
-theorem untilQuote_append (s rest : Str) (h : '"' ∉ s) :
-    untilQuote (s ++ '"' :: rest) = some (s, rest) := by
-  induction s with
-  | nil => simp [untilQuote]
-  | cons x xs ih =>
-    have hx : x ≠ '"' := by intro e; subst e; simp at h
-    have hxs : '"' ∉ xs := by intro e; exact h (by simp [e])
-    simp [untilQuote, hx, ih hxs]
+/-- characters that would end or escape a key component inside the Python expression -/
+def badQuote (c : Char) : Bool := c == '"' || (reprKeys && (c == '\'' || c == '\\'))
 
-def Key.NoQuote (k : Key) : Prop := '"' ∉ k.point ∧ '"' ∉ k.task ∧ '"' ∉ k.out
+def cleanStr (s : Str) : Prop := ∀ c ∈ s, badQuote c = false
+
+instance (s : Str) : Decidable (cleanStr s) := by unfold cleanStr; infer_instance
+
+/-- the quote character the source puts around a key component -/
+def qChar : Char := if reprKeys then '\'' else '"'
+
+theorem badQuote_qChar : badQuote qChar = true := by
+  unfold badQuote qChar; cases reprKeys <;> simp
+
+theorem flatMap_escRepr_clean (hr : reprKeys = true) (l : Str) (hl : cleanStr l) :
+    l.flatMap escRepr = l := by
+  induction l with
+  | nil => rfl
+  | cons x xs ih =>
+    have hx := hl x (by simp)
+    simp only [badQuote, hr, Bool.true_and, Bool.or_eq_false_iff] at hx
+    have e1 : (x == '\\') = false := hx.2.2
+    have e2 : (x == '\'') = false := hx.2.1
+    have hxs : cleanStr xs := fun c hc => hl c (by simp [hc])
+    simp only [List.flatMap_cons, escRepr, e1, e2, Bool.false_eq_true, if_false, List.singleton_append,
+      ih hxs]
+
+theorem quoteKey_clean (s : Str) (h : cleanStr s) : quoteKey s = qChar :: s ++ [qChar] := by
+  unfold quoteKey qChar
+  cases hr : reprKeys with
+  | false => simp
+  | true =>
+    have h1 : s.contains '\'' = false := by
+      cases hc : s.contains '\'' with
+      | false => rfl
+      | true =>
+        have := h '\'' (by simpa using hc)
+        simp [badQuote, hr] at this
+    simp only [if_true, pyRepr, h1, Bool.false_and, Bool.false_eq_true, if_false,
+      flatMap_escRepr_clean hr s h]
+
+theorem readStrBody_clean (s rest : Str) (h : cleanStr s) :
+    readStrBody qChar false (s ++ qChar :: rest) = some (s, rest) := by
+  induction s with
+  | nil =>
+    unfold readStrBody
+    simp
+  | cons x xs ih =>
+    have hx := h x (by simp)
+    have hq : (x == qChar) = false := by
+      cases hxq : x == qChar with
+      | false => rfl
+      | true =>
+        have : x = qChar := by simpa using hxq
+        rw [this, badQuote_qChar] at hx; cases hx
+    have hb : (reprKeys && x == '\\') = false := by
+      cases hr : reprKeys with
+      | false => rfl
+      | true =>
+        simp only [badQuote, hr, Bool.true_and, Bool.or_eq_false_iff] at hx
+        simpa using hx.2.2
+    have hxs : cleanStr xs := fun c hc => h c (by simp [hc])
+    rw [List.cons_append]
+    unfold readStrBody
+    simp only [hq, hb, Bool.false_eq_true, if_false, ih hxs]
+
+theorem readStr_clean (s rest : Str) (h : cleanStr s) :
+    readStr (qChar :: s ++ qChar :: rest) = some (s, rest) := by
+  have hq : (qChar == '"' || (reprKeys && qChar == '\'')) = true := by
+    unfold qChar; cases reprKeys <;> simp
+  simp only [List.cons_append, readStr, hq, if_true]
+  exact readStrBody_clean s rest h
+
+def Key.NoQuote (k : Key) : Prop := cleanStr k.point ∧ cleanStr k.task ∧ cleanStr k.out
 
 instance (k : Key) : Decidable k.NoQuote := by unfold Key.NoQuote; infer_instance
 
 theorem readRef_tmpl (k : Key) (h : k.NoQuote) (rest : Str) :
     readRef (k.tmpl ++ rest) = some (k, rest) := by
   obtain ⟨h1, h2, h3⟩ := h
-  have e : k.tmpl ++ rest = satHead ++ (k.point ++ '"' :: (satSep1.drop 1 ++ (k.task ++ '"' ::
-      (satSep2.drop 1 ++ (k.out ++ '"' :: (satTail.drop 1 ++ rest)))))) := by
-    simp only [Key.tmpl, List.append_assoc]
-    conv => lhs; rw [satSep1_quote, satSep2_quote, satTail_quote]
-    simp only [List.cons_append]
+  have e : k.tmpl ++ rest = satHead ++ (qChar :: k.point ++ qChar :: (satSep1 ++ (qChar :: k.task ++ qChar ::
+      (satSep2 ++ (qChar :: k.out ++ qChar :: (satTail ++ rest)))))) := by
+    simp only [Key.tmpl, quoteKey_clean _ h1, quoteKey_clean _ h2, quoteKey_clean _ h3,
+      List.append_assoc, List.cons_append, List.nil_append]
   rw [e]
-  simp only [readRef, dropPrefix?_append, untilQuote_append _ _ h1, untilQuote_append _ _ h2,
-    untilQuote_append _ _ h3]
+  simp only [readRef, dropPrefix?_append, readStr_clean _ _ h1, readStr_clean _ _ h2,
+    readStr_clean _ _ h3]
 
 def toP (key : Nat → Key) : Tok → PTok
   | .atom i => .ref (key i)
@@ -356,7 +424,7 @@ def toP (key : Nat → Key) : Tok → PTok
   | .rp => .rp
 
 theorem tmpl_cons (k : Key) : ∃ tl, k.tmpl = 'b' :: tl := by
-  refine ⟨satHead.drop 1 ++ k.point ++ satSep1 ++ k.task ++ satSep2 ++ k.out ++ satTail, ?_⟩
+  refine ⟨satHead.drop 1 ++ quoteKey k.point ++ satSep1 ++ quoteKey k.task ++ satSep2 ++ quoteKey k.out ++ satTail, ?_⟩
   simp only [Key.tmpl]
   conv => lhs; rw [satHead_cons]
   simp only [List.cons_append]
@@ -1449,6 +1517,382 @@ theorem observe_inv {c : Ctx} {trigs : List Trig} {e : BExpr} (h : Hyp c trigs e
     have ha := inv_apply h hnc h2 op
     simp only [observe, specTrace, List.map_cons]
     rw [h1, ih _ ha.1, ha.2, h3]
+
+
+/-! ## 10. Anchored patterns (the source after findings/C13-fix-1.diff): no collisions -/
+
+/-- operands are matched only between operators / parentheses / the ends -/
+structure Pat.Anchored (P : Pat) : Prop where
+  ne : P.lit ≠ []
+  sepFree : ∀ c ∈ P.lit, isSep c = false
+  okL : P.okL = isOpenerO
+  okR : P.okR = isCloserO
+
+theorem isOpenerO_nonsep {c : Char} (h : isSep c = false) : isOpenerO (some c) = false := by
+  simp only [isSep, Bool.or_eq_false_iff, beq_eq_false_iff_ne] at h
+  simp [isOpenerO, h.1.1.1, h.1.1.2, h.1.2]
+
+theorem isCloserO_nonsep {c : Char} (h : isSep c = false) : isCloserO (some c) = false := by
+  simp only [isSep, Bool.or_eq_false_iff, beq_eq_false_iff_ne] at h
+  simp [isCloserO, h.1.1.1, h.1.1.2, h.2]
+
+theorem Pat.Anchored.regular {P : Pat} (h : P.Anchored) : P.Regular := by
+  refine ⟨h.ne, h.sepFree, ?_, ?_⟩
+  · intro c hc
+    rw [h.okR]
+    simp only [isCloser, Bool.or_eq_true, beq_iff_eq] at hc
+    rcases hc with (e | e) | e <;> subst e <;> rfl
+  · intro c hc
+    rw [h.okL]
+    simp only [isOpener, Bool.or_eq_true, beq_iff_eq] at hc
+    rcases hc with (e | e) | e <;> subst e <;> rfl
+
+/-- inside an occurrence: the next `|A|` characters are dropped -/
+theorem sub_skip (P : Pat) (r : Str) (B : Str) :
+    ∀ (A : Str) (prev : Option Char), sub P r prev (A ++ B) A.length = sub P r (lastOr prev A) B 0 := by
+  intro A
+  induction A with
+  | nil => intro prev; simp
+  | cons c A' ih =>
+    intro prev
+    simp only [List.cons_append, List.length_cons, sub, lastOr_cons]
+    exact ih (some c)
+
+/-- after a character that is not an opener nothing can start inside a separator-free text -/
+theorem sub_copy_run {P : Pat} (hP : P.Anchored) (r : Str) (rest : Str) :
+    ∀ (A : Str) (prev : Option Char), (∀ c ∈ A, isSep c = false) → isOpenerO prev = false →
+      sub P r prev (A ++ rest) 0 = A ++ sub P r (lastOr prev A) rest 0 := by
+  intro A
+  induction A with
+  | nil => intro prev _ _; simp
+  | cons c A' ih =>
+    intro prev hA hprev
+    have hm : P.matchAt prev (c :: (A' ++ rest)) = false := by
+      simp [Pat.matchAt, hP.okL, hprev]
+    simp only [List.cons_append, sub, hm, Bool.false_eq_true, if_false, lastOr_cons]
+    rw [ih (some c) (fun x hx => hA x (by simp [hx])) (isOpenerO_nonsep (hA c (by simp)))]
+
+/-- a separator-free run followed by nothing or by a separator: replaced iff it is the whole
+literal standing between an opener and a closer -/
+theorem sub_run {P : Pat} (hP : P.Anchored) (r : Str) (R rest : Str) (prev : Option Char)
+    (hR : ∀ c ∈ R, isSep c = false)
+    (hrest : rest = [] ∨ ∃ c B', rest = c :: B' ∧ isSep c = true) :
+    sub P r prev (R ++ rest) 0 =
+      (if isOpenerO prev = true ∧ R = P.lit ∧ isCloserO rest.head? = true then r else R) ++
+        sub P r (lastOr prev R) rest 0 := by
+  cases R with
+  | nil =>
+    have : ¬ ([] = P.lit) := fun e => hP.ne e.symm
+    simp [this]
+  | cons c R' =>
+    have hpre := isPrefixOf_append_sep hP.regular (c :: R') rest hrest
+    -- the occurrence test at the first position
+    have hm : P.matchAt prev (c :: R' ++ rest) =
+        decide (isOpenerO prev = true ∧ (c :: R') = P.lit ∧ isCloserO rest.head? = true) := by
+      unfold Pat.matchAt
+      rw [hP.okL, hP.okR, hpre.1]
+      by_cases hp : P.lit.isPrefixOf (c :: R') = true
+      · have hle := hpre.2 hp
+        have hpfx := List.isPrefixOf_iff_prefix.mp hp
+        by_cases hlt : P.lit.length < (c :: R').length
+        · -- the character after the occurrence belongs to the run: not a closer
+          have hdrop : ((c :: R') ++ rest).drop P.lit.length = (c :: R').drop P.lit.length ++ rest := by
+            rw [List.drop_append_of_le_length (Nat.le_of_lt hlt)]
+          cases hd : (c :: R').drop P.lit.length with
+          | nil =>
+            have := List.drop_eq_nil_iff.mp hd
+            omega
+          | cons x xs =>
+            have hx : x ∈ c :: R' := List.mem_of_mem_drop (by rw [hd]; simp)
+            have hne : ¬ (c :: R') = P.lit := by
+              intro e; rw [← e] at hlt; exact Nat.lt_irrefl _ hlt
+            rw [hdrop, hd]
+            simp [hp, isCloserO_nonsep (hR x hx), hne]
+        · have heq : P.lit.length = (c :: R').length := by omega
+          have hRl : (c :: R') = P.lit := (List.IsPrefix.eq_of_length hpfx heq).symm
+          have hdrop : ((c :: R') ++ rest).drop P.lit.length = rest := by rw [heq]; simp
+          rw [hdrop, hp]
+          simp [hRl]
+      · have hne : ¬ (c :: R') = P.lit := by
+          intro e; rw [e] at hp; exact hp (List.isPrefixOf_iff_prefix.mpr (List.prefix_refl _))
+        simp [hp, hne]
+    by_cases hc : isOpenerO prev = true ∧ (c :: R') = P.lit ∧ isCloserO rest.head? = true
+    · have hmt : P.matchAt prev (c :: (R' ++ rest)) = true := by
+        rw [← List.cons_append, hm]; simpa using hc
+      rw [if_pos hc]
+      simp only [List.cons_append, sub, hmt, if_true]
+      have hlen : P.lit.length - 1 = R'.length := by rw [← hc.2.1]; simp
+      rw [hlen, sub_skip, lastOr_cons]
+    · have hmf : P.matchAt prev (c :: (R' ++ rest)) = false := by
+        rw [← List.cons_append, hm]; simpa using hc
+      rw [if_neg hc]
+      simp only [List.cons_append, sub, hmf, Bool.false_eq_true, if_false, lastOr_cons]
+      rw [sub_copy_run hP r rest R' (some c) (fun x hx => hR x (by simp [hx]))
+        (isOpenerO_nonsep (hR c (by simp)))]
+
+/-- no maximal separator-free run of the text (after the run `cur` read so far) is the literal -/
+def noRunEq (lit : Str) : Str → Str → Bool
+  | cur, [] => cur != lit
+  | cur, c :: rest => if isSep c then cur != lit && noRunEq lit [] rest else noRunEq lit (cur ++ [c]) rest
+
+theorem sub_id_of_noRunEq {P : Pat} (hP : P.Anchored) (r : Str) :
+    ∀ (S cur : Str) (prev : Option Char), (∀ c ∈ cur, isSep c = false) →
+      noRunEq P.lit cur S = true → sub P r prev (cur ++ S) 0 = cur ++ S := by
+  intro S
+  induction S with
+  | nil =>
+    intro cur prev hcur h
+    have hne : ¬ cur = P.lit := by simpa [noRunEq] using h
+    have := sub_run hP r cur [] prev hcur (Or.inl rfl)
+    simp only [List.append_nil] at this ⊢
+    rw [this]; simp [hne, sub]
+  | cons c S' ih =>
+    intro cur prev hcur h
+    by_cases hc : isSep c = true
+    · simp only [noRunEq, hc, if_true, Bool.and_eq_true] at h
+      have hne : ¬ cur = P.lit := by simpa using h.1
+      rw [sub_run hP r cur (c :: S') prev hcur (Or.inr ⟨c, S', rfl, hc⟩)]
+      simp only [hne, false_and, and_false, if_false]
+      rw [sub_cons_sep hP.regular r _ hc]
+      have := ih [] (some c) (by simp) h.2
+      simp only [List.nil_append] at this
+      rw [this]
+    · have hc' : isSep c = false := by simpa using hc
+      simp only [noRunEq, hc', Bool.false_eq_true, if_false] at h
+      have := ih (cur ++ [c]) prev (by
+        intro x hx
+        rcases List.mem_append.mp hx with hx | hx
+        · exact hcur x hx
+        · simp at hx; subst hx; exact hc') h
+      simpa [List.append_assoc] using this
+
+theorem noRunEq_append_sepFree (lit : Str) (A : Str) (hA : ∀ c ∈ A, isSep c = false) :
+    ∀ (cur S : Str), noRunEq lit cur (A ++ S) = noRunEq lit (cur ++ A) S := by
+  induction A with
+  | nil => intro cur S; simp
+  | cons a A' ih =>
+    intro cur S
+    have ha : isSep a = false := hA a (by simp)
+    simp only [List.cons_append, noRunEq, ha, Bool.false_eq_true, if_false]
+    rw [ih (fun c hc => hA c (by simp [hc]))]
+    simp [List.append_assoc]
+
+
+theorem patOf_anchored (hA : anchoredRewrite = true) (msg : Str) (hne : msg ≠ [])
+    (hs : ∀ c ∈ msg, isSep c = false) : (patOf msg).Anchored ∧ (patOf msg).lit = msg := by
+  unfold patOf
+  simp only [hA, if_true]
+  exact ⟨⟨hne, hs, rfl, rfl⟩, trivial⟩
+
+/-- a character of every message text that the fixed parts of the Python expression lack -/
+def dch : Char := msgSep1.headD ' '
+
+theorem dch_mem_msg (k : Key) : dch ∈ k.msg := by
+  have : dch ∈ msgSep1 := by decide
+  simp [Key.msg, this]
+
+/-- facts about the regenerated pieces of the Python expression -/
+theorem satHead_split : ∃ A s, satHead = A ++ [s] ∧ isSep s = true ∧ dch ∉ A :=
+  ⟨satHead.dropLast, '(', by decide⟩
+theorem satTail_split : ∃ s T, satTail = s :: T ∧ isSep s = true ∧ dch ∉ T :=
+  ⟨')', satTail.drop 1, by decide⟩
+theorem satSep_sepFree : (∀ c ∈ satSep1, isSep c = false) ∧ (∀ c ∈ satSep2, isSep c = false) := by decide
+theorem msgHead_nil : msgHead = [] := by decide
+theorem qChar_facts : isSep qChar = false ∧ qChar ≠ dch := by
+  unfold qChar; cases reprKeys <;> decide
+
+theorem noRunEq_nochar (lit : Str) (d : Char) (hd : d ∈ lit) :
+    ∀ (T cur : Str), d ∉ cur → d ∉ T → noRunEq lit cur T = true := by
+  intro T
+  induction T with
+  | nil =>
+    intro cur hc _
+    have : cur ≠ lit := by intro e; rw [e] at hc; exact hc hd
+    simp [noRunEq, this]
+  | cons a T' ih =>
+    intro cur hc hT
+    have ha : a ≠ d := by intro e; subst e; simp at hT
+    have hT' : d ∉ T' := fun h => hT (by simp [h])
+    have hne : cur ≠ lit := by intro e; rw [e] at hc; exact hc hd
+    by_cases hs : isSep a = true
+    · simp [noRunEq, hs, hne, ih [] (by simp) hT']
+    · have hs' : isSep a = false := by simpa using hs
+      simp only [noRunEq, hs', Bool.false_eq_true, if_false]
+      exact ih (cur ++ [a]) (by
+        intro h; rcases List.mem_append.mp h with h | h
+        · exact hc h
+        · simp at h; exact ha h.symm) hT'
+
+theorem noRunEq_prefix_nochar (lit : Str) (d : Char) (hd : d ∈ lit) (s : Char) (hs : isSep s = true)
+    (Y : Str) :
+    ∀ (A cur : Str), d ∉ cur → d ∉ A → noRunEq lit cur (A ++ s :: Y) = noRunEq lit [] Y := by
+  intro A
+  induction A with
+  | nil =>
+    intro cur hc _
+    have : cur ≠ lit := by intro e; rw [e] at hc; exact hc hd
+    simp [noRunEq, hs, this]
+  | cons a A' ih =>
+    intro cur hc hA
+    have ha : a ≠ d := by intro e; subst e; simp at hA
+    have hA' : d ∉ A' := fun h => hA (by simp [h])
+    have hne : cur ≠ lit := by intro e; rw [e] at hc; exact hc hd
+    by_cases hsa : isSep a = true
+    · simp only [List.cons_append, noRunEq, hsa, if_true]
+      rw [ih [] (by simp) hA']; simp [hne]
+    · have hsa' : isSep a = false := by simpa using hsa
+      simp only [List.cons_append, noRunEq, hsa', Bool.false_eq_true, if_false]
+      exact ih (cur ++ [a]) (by
+        intro h; rcases List.mem_append.mp h with h | h
+        · exact hc h
+        · simp at h; exact ha h.symm) hA'
+
+theorem sepFree_parts {k : Key} (h : k.SepFree) :
+    (∀ c ∈ k.point, isSep c = false) ∧ (∀ c ∈ k.task, isSep c = false) ∧ (∀ c ∈ k.out, isSep c = false) := by
+  refine ⟨fun c hc => h c ?_, fun c hc => h c ?_, fun c hc => h c ?_⟩ <;> simp [Key.msg, hc]
+
+/-- the Python expression of one key is not touched by the pass of any key (anchored patterns) -/
+theorem noRunEq_tmpl (k k' : Key) (hk : k.SepFree) (hq : k.NoQuote) (hq' : k'.NoQuote) :
+    noRunEq k'.msg [] k.tmpl = true := by
+  obtain ⟨A, s, hH, hs, hdA⟩ := satHead_split
+  obtain ⟨s2, T, hT, hs2, hdT⟩ := satTail_split
+  obtain ⟨hp, ht, ho⟩ := sepFree_parts hk
+  obtain ⟨hq1, hq2, hq3⟩ := hq
+  have hd := dch_mem_msg k'
+  -- the part between the fixed head and tail is one separator-free run starting with a quote
+  let L : List Str := [[qChar], k.point, [qChar], satSep1, [qChar], k.task, [qChar], satSep2, [qChar], k.out, [qChar]]
+  let X : Str := L.flatten
+  have hX : ∀ c ∈ X, isSep c = false := by
+    intro c hc
+    obtain ⟨l, hl, hcl⟩ := List.mem_flatten.mp hc
+    have hqc : ∀ c ∈ [qChar], isSep c = false := by
+      intro c hc; simp at hc; subst hc; exact qChar_facts.1
+    simp only [L, List.mem_cons, List.mem_singleton, List.not_mem_nil, or_false] at hl
+    rcases hl with rfl | rfl | rfl | rfl | rfl | rfl | rfl | rfl | rfl | rfl | rfl
+    · exact hqc c hcl
+    · exact hp c hcl
+    · exact hqc c hcl
+    · exact satSep_sepFree.1 c hcl
+    · exact hqc c hcl
+    · exact ht c hcl
+    · exact hqc c hcl
+    · exact satSep_sepFree.2 c hcl
+    · exact hqc c hcl
+    · exact ho c hcl
+    · exact hqc c hcl
+  have htm : k.tmpl = A ++ s :: (X ++ s2 :: T) := by
+    simp only [Key.tmpl, quoteKey_clean _ hq1, quoteKey_clean _ hq2, quoteKey_clean _ hq3, hH, hT, X, L,
+      List.flatten_cons, List.flatten_nil, List.append_assoc, List.cons_append, List.nil_append,
+      List.singleton_append, List.append_nil]
+  rw [htm, noRunEq_prefix_nochar _ dch hd s hs _ A [] (by simp) hdA,
+    noRunEq_append_sepFree _ X hX]
+  simp only [List.nil_append, noRunEq, hs2, if_true, Bool.and_eq_true]
+  refine ⟨?_, noRunEq_nochar _ dch hd T [] (by simp) hdT⟩
+  -- a message never starts with the quote character
+  have hhead : k'.msg.head? ≠ some qChar := by
+    simp only [Key.msg, msgHead_nil, List.nil_append]
+    cases hpp : k'.point with
+    | nil =>
+      have : msgSep1.head? = some dch := by decide
+      simp only [List.nil_append, List.append_assoc]
+      cases hm : msgSep1 with
+      | nil => exact absurd hm msgSep1_ne_nil
+      | cons m ms =>
+        rw [hm] at this
+        simp only [List.head?_cons, Option.some.injEq] at this
+        simp only [List.cons_append, List.head?_cons, ne_eq, Option.some.injEq, this]
+        exact fun e => qChar_facts.2 e.symm
+    | cons x xs =>
+      simp only [List.cons_append, List.head?_cons, ne_eq, Option.some.injEq]
+      intro e
+      have := hq'.1 x (by simp [hpp])
+      rw [e, badQuote_qChar] at this
+      cases this
+  simp only [bne_iff_ne, ne_eq]
+  intro e
+  apply hhead
+  rw [← e]
+  simp [X, L]
+
+theorem rewriteText_id_tmpl (hA : anchoredRewrite = true) (k : Key) (hk : k.SepFree) (hq : k.NoQuote) :
+    ∀ (keys : List Key), (∀ k' ∈ keys, k'.SepFree ∧ k'.NoQuote) → rewriteText keys k.tmpl = k.tmpl := by
+  intro keys
+  induction keys with
+  | nil => intro _; rfl
+  | cons k' ks ih =>
+    intro h
+    have h' := h k' (by simp)
+    obtain ⟨hP, hlit⟩ := patOf_anchored hA k'.msg k'.msg_ne_nil h'.1
+    have h1 : subKey k' k.tmpl = k.tmpl := by
+      unfold subKey
+      have := sub_id_of_noRunEq hP k'.tmpl k.tmpl [] none (by simp) (by
+        rw [hlit]; exact noRunEq_tmpl k k' hk hq h'.2)
+      simpa using this
+    have : rewriteText (k' :: ks) k.tmpl = rewriteText ks (subKey k' k.tmpl) := by simp [rewriteText]
+    rw [this, h1]
+    exact ih (fun x hx => h x (by simp [hx]))
+
+theorem subKey_msg (hA : anchoredRewrite = true) (k k' : Key) (hk : k.SepFree) (hk' : k'.SepFree) :
+    subKey k' k.msg = if k.msg = k'.msg then k'.tmpl else k.msg := by
+  obtain ⟨hP, hlit⟩ := patOf_anchored hA k'.msg k'.msg_ne_nil hk'
+  unfold subKey
+  have := sub_run hP k'.tmpl k.msg [] none hk (Or.inl rfl)
+  simp only [List.append_nil, hlit, isOpenerO, List.head?_nil, isCloserO, true_and, and_true, lastOr,
+    sub] at this
+  rw [this]
+
+/-- anchored patterns: distinct, separator-free, quote-free messages never collide -/
+theorem noCollision_anchored (hA : anchoredRewrite = true) :
+    ∀ (keys : List Key), (∀ k ∈ keys, k.SepFree ∧ k.NoQuote) → (keys.map Key.msg).Nodup →
+      ∀ (pre : List Key), (∀ k ∈ keys, ∀ k' ∈ pre, k'.SepFree ∧ k.msg ≠ k'.msg) →
+        ∀ k ∈ keys, rewriteText (pre ++ keys) k.msg = k.tmpl := by
+  intro keys
+  induction keys with
+  | nil => intro _ _ _ _ k hk; simp at hk
+  | cons k0 ks ih =>
+    intro hks hnd pre hpre k hk
+    simp only [List.map_cons, List.nodup_cons] at hnd
+    -- the passes of `pre` leave every later message alone
+    have hpre_id : ∀ (pre : List Key) (k : Key), k.SepFree → (∀ k' ∈ pre, k'.SepFree ∧ k.msg ≠ k'.msg) →
+        rewriteText pre k.msg = k.msg := by
+      intro pre
+      induction pre with
+      | nil => intro _ _ _; rfl
+      | cons p ps ihp =>
+        intro k hk hps
+        have hp := hps p (by simp)
+        have : rewriteText (p :: ps) k.msg = rewriteText ps (subKey p k.msg) := by simp [rewriteText]
+        rw [this, subKey_msg hA k p hk hp.1, if_neg hp.2]
+        exact ihp k hk (fun x hx => hps x (by simp [hx]))
+    rcases List.mem_cons.mp hk with rfl | hk'
+    · -- its own pass, then the later passes do not touch the Python expression
+      have hk0 := hks k (by simp)
+      have : rewriteText (pre ++ k :: ks) k.msg = rewriteText ks (subKey k (rewriteText pre k.msg)) := by
+        simp [rewriteText, List.foldl_append]
+      rw [this, hpre_id pre k hk0.1 (fun k' hk' => hpre k (by simp) k' hk'),
+        subKey_msg hA k k hk0.1 hk0.1, if_pos rfl]
+      exact rewriteText_id_tmpl hA k hk0.1 hk0.2 ks (fun x hx => hks x (by simp [hx]))
+    · have hk0 := hks k0 (by simp)
+      have hne : k.msg ≠ k0.msg := by
+        intro e
+        exact hnd.1 (by rw [← e]; exact List.mem_map.mpr ⟨k, hk', rfl⟩)
+      have := ih (fun x hx => hks x (by simp [hx])) hnd.2 (pre ++ [k0]) (by
+        intro x hx k' hk''
+        rcases List.mem_append.mp hk'' with h | h
+        · exact hpre x (by simp [hx]) k' h
+        · simp at h; subst h
+          refine ⟨hk0.1, ?_⟩
+          intro e
+          exact hnd.1 (by rw [← e]; exact List.mem_map.mpr ⟨x, hx, rfl⟩)) k hk'
+      simpa [List.append_assoc] using this
+
+theorem noCollision_of_anchored (hA : anchoredRewrite = true) (keys : List Key)
+    (hk : ∀ k ∈ keys, k.SepFree ∧ k.NoQuote) (hnd : (keys.map Key.msg).Nodup) :
+    NoCollision keys = true := by
+  simp only [NoCollision, List.all_eq_true, beq_iff_eq]
+  intro k hkm
+  have := noCollision_anchored hA keys hk hnd [] (by simp) k hkm
+  simpa using this
 
 
 end CylcModel.Prereq
